@@ -40,7 +40,8 @@ def export(spec, seed=None, ctx=None, **kw):
     # one table may hold several sequences: further collections (spec["more"]) are written after the first one
     colls = [mkcollection(spec["obj"], chrom_parent(spec["genome"]))]
     for k_, m_ in enumerate(spec.get("more") or []):
-        colls.append(mkcollection(m_["obj"], chrom_parent(m_["genome"], name="chr%d" % (k_ + 2)), sequence_name="chr%d" % (k_ + 2)))
+        nm_ = m_.get("name", "chr%d" % (k_ + 2))
+        colls.append(mkcollection(m_["obj"], chrom_parent(m_["genome"], name=nm_), sequence_name=nm_))
     buf = io.StringIO()
     with warnings.catch_warnings():
         warnings.simplefilter("ignore")
@@ -112,7 +113,7 @@ def check_tbl(spec, ctx):
         return
     tags = []
     for k_, ((o, g), rec_) in enumerate(zip(parts, recs)):
-        ctx.eq("header_names_sequence", rec_["header"], "chr%d" % (k_ + 1))
+        ctx.eq("header_names_sequence", rec_["header"], "chr1" if k_ == 0 else spec["more"][k_ - 1].get("name", "chr%d" % (k_ + 1)))
         _check_one_sequence(spec, ctx, o, g, rec_["features"], tags)
     # locus tags unique, increasing by the requested step - over the whole table
     ctx.eq("locus_tags_unique", len(set(tags)), len(tags))
@@ -229,6 +230,9 @@ def strat_tbl(draw, tier="quick"):
     if draw(st.integers(0, 3)) == 0:
         # a table of several sequences; a later sequence may also have no gene at all
         sp["more"] = [draw(_one_collection(min_genes=draw(st.sampled_from([0, 1, 1])), tag="s%d" % k)) for k in range(draw(st.integers(1, 2)))]
+        if len(sp["more"]) == 2 and draw(st.booleans()):
+            # the third collection is on the first sequence again (chr1, chr2, chr1): every collection still gets its own header
+            sp["more"][1]["name"] = "chr1"
     return sp
 
 
